@@ -1,9 +1,124 @@
-/- C02 — executable model (core Lean only).  Stub. -/
+/-
+C02 — M-PROP°: the axis-level abstraction of `BlockList.propagate_gradings` (after the repairs).
+Axes are natural numbers; block b owns axes 3b, 3b+1, 3b+2.  The state is the list of *defined*
+axes plus the work-list; `adj a` is the iteration order of `Axis.neighbours` of axis `a`.
+One `axisCopy` is one call of `Axis.copy_grading`: an undefined axis with a defined neighbour
+becomes defined (it receives that neighbour's chops, which a defined axis always holds since
+repair f66801e), anything else is left alone.  Core Lean only.
+-/
 import CBV.Model.Common
 import CBV.Gen.Tables
 
-namespace CBV.C02
+namespace CBV.Prop0
 
-def handle (_op : String) (_args : List String) : Option String := none
+structure Inp where
+  nBlocks : Nat
+  adj : Nat → List Nat        -- neighbours of an axis, in schedule order
+
+abbrev Def := List Nat         -- defined axes
+
+def axesOf (b : Nat) : List Nat := [3*b, 3*b+1, 3*b+2]
+
+def BlockDef (d : Def) (b : Nat) : Prop := ∀ a ∈ axesOf b, a ∈ d
+instance (d : Def) (b : Nat) : Decidable (BlockDef d b) := by unfold BlockDef; infer_instance
+
+def HasDefNbr (inp : Inp) (d : Def) (a : Nat) : Prop := ∃ n ∈ inp.adj a, n ∈ d
+instance (inp : Inp) (d : Def) (a : Nat) : Decidable (HasDefNbr inp d a) := by unfold HasDefNbr; infer_instance
+
+/-- Axis.copy_grading -/
+def axisCopy (inp : Inp) (d : Def) (a : Nat) : Def × Bool :=
+  if a ∈ d then (d, false)
+  else if HasDefNbr inp d a then (a :: d, true) else (d, false)
+
+/-- Block.copy_grading: fold over the three axes -/
+def axesCopy (inp : Inp) : Def → List Nat → Def × Bool
+  | d, [] => (d, false)
+  | d, a :: as =>
+    let r := axisCopy inp d a
+    let r' := axesCopy inp r.1 as
+    (r'.1, r.2 || r'.2)
+
+def blockCopy (inp : Inp) (d : Def) (b : Nat) : Def × Bool :=
+  if BlockDef d b then (d, false) else axesCopy inp d (axesOf b)
+
+/-- one pass of the `for i in undefined_blocks` loop.
+    returns (defined, remaining worklist, updated) -/
+def pass (inp : Inp) : Def → List Nat → Def × List Nat × Bool
+  | d, [] => (d, [], false)
+  | d, b :: rest =>
+    if BlockDef d b then (d, rest, true)                  -- remove and break
+    else
+      let r := blockCopy inp d b
+      let p := pass inp r.1 rest
+      (p.1, b :: p.2.1, r.2 || p.2.2)
+
+inductive Outcome | ok | undefined | outOfFuel
+deriving DecidableEq, Repr
+
+def loop (inp : Inp) : Nat → Def → List Nat → Def × Outcome
+  | 0, d, _ => (d, .outOfFuel)
+  | fuel+1, d, wl =>
+    match wl with
+    | [] => (d, .ok)
+    | _ :: _ =>
+      let r := pass inp d wl
+      if r.2.2 then loop inp fuel r.1 r.2.1 else (r.1, .undefined)
+
+
+/-! ### trace of `Axis.copy_grading` calls, for the correspondence with the implementation -/
+
+def axesCopyT (inp : Inp) : Def → List Nat → Def × Bool × List (Nat × Bool)
+  | d, [] => (d, false, [])
+  | d, a :: as =>
+    let r := axisCopy inp d a
+    let r' := axesCopyT inp r.1 as
+    (r'.1, r.2 || r'.2.1, (a, r.2) :: r'.2.2)
+
+def passT (inp : Inp) : Def → List Nat → Def × List Nat × Bool × List (Nat × Bool)
+  | d, [] => (d, [], false, [])
+  | d, b :: rest =>
+    if BlockDef d b then (d, rest, true, [])
+    else
+      let r := axesCopyT inp d (axesOf b)
+      let p := passT inp r.1 rest
+      (p.1, b :: p.2.1, r.2.1 || p.2.2.1, r.2.2 ++ p.2.2.2)
+
+def loopT (inp : Inp) : Nat → Def → List Nat → List (Nat × Bool) → Outcome × List (Nat × Bool)
+  | 0, _, _, tr => (.outOfFuel, tr)
+  | fuel+1, d, wl, tr =>
+    match wl with
+    | [] => (.ok, tr)
+    | _ :: _ =>
+      let r := passT inp d wl
+      if r.2.2.1 then loopT inp fuel r.1 r.2.1 (tr ++ r.2.2.2) else (.undefined, tr ++ r.2.2.2)
+
+end CBV.Prop0
+
+namespace CBV.C02
+open CBV CBV.Prop0
+
+def parseNested (s : String) : Option (List (List Nat)) :=
+  (s.splitOn ";").mapM (fun part => if part.isEmpty then some [] else (part.splitOn ",").mapM String.toNat?)
+
+/-- `c02.trace <nBlocks> <adj ;-lists per axis> <defined axes [..]>` →
+    `<outcome> <axis:0|1,…>`: the sequence of `Axis.copy_grading` calls with their results -/
+def handleTrace (args : List String) : Option String :=
+  match args with
+  | [n, adj, d0] => do
+      let n ← n.toNat?
+      let adj ← parseNested adj
+      let d0 ← parseNatList? d0
+      if adj.length != 3 * n then none else
+      let arr := adj.toArray
+      let inp : Inp := { nBlocks := n, adj := fun a => arr.getD a [] }
+      let r := loopT inp (4 * n + 1) d0 (List.range n) []
+      let oc := match r.1 with | .ok => "ok" | .undefined => "undefined" | .outOfFuel => "out-of-fuel"
+      some (oc ++ " " ++ ",".intercalate (r.2.map (fun p => s!"{p.1}:{if p.2 then 1 else 0}")) ++ ".")
+  | _ => none
+
+def handle (op : String) (args : List String) : Option String :=
+  match op with
+  | "c02.trace" => handleTrace args
+  | _ => none
 
 end CBV.C02
